@@ -16,8 +16,15 @@ import (
 // code's one-second look-ahead on the age; the 10^-6 floor on the ratio needs no tolerance in this direction).
 func VerifC16_update_rule() {
 	const T = 1000 // total power of the saved set (a constant, so that the relative difference is linear)
+	// membership: validator 1 is in both sets, has joined since the last checkpoint (not in the saved set) or has
+	// left (not in the current set)
+	member := ndPick("membership", 3)
 	p0 := ndUint64("savedPower0")
-	ndAssume(p0 >= 1 && p0 <= T-1)
+	if member == 1 {
+		ndAssume(p0 == T)
+	} else {
+		ndAssume(p0 >= 1 && p0 <= T-1)
+	}
 	p1 := uint64(T) - p0
 	q0, q1 := ndUint64("newPower0"), ndUint64("newPower1")
 	ndAssume(q0 >= 1 && q0 <= 3000 && q1 >= 1 && q1 <= 3000)
@@ -29,6 +36,10 @@ func VerifC16_update_rule() {
 	ndAssume(ops[0] != ops[1])
 	sk := c16Staking{}
 	for i, q := range []uint64{q0, q1} {
+		if i == 1 && member == 2 {
+			q1 = 0
+			break
+		}
 		tok := math.NewIntFromUint64(q).MulRaw(1000000)
 		sk.vals = append(sk.vals, stakingtypes.Validator{OperatorAddress: ops[i], Status: stakingtypes.Bonded, Tokens: tok, DelegatorShares: math.LegacyNewDecFromInt(tok)})
 	}
@@ -41,6 +52,9 @@ func VerifC16_update_rule() {
 	saved := []*types.BridgeValidator{s0, s1}
 	if p1 > p0 || (p1 == p0 && ndAtomLess(a1, a0)) {
 		saved = []*types.BridgeValidator{s1, s0}
+	}
+	if member == 1 {
+		saved = []*types.BridgeValidator{s0}
 	}
 	prevTs := ndUint64("prevCheckpointMs")
 	ndAssume(prevTs >= 1 && prevTs < c15MaxMs)
@@ -76,9 +90,21 @@ func VerifC16_update_rule() {
 	if written {
 		ndAssert(ndOr(shifted, age >= twoWeeksMs-1001), "a-checkpoint-is-recorded-only-on-a-5-percent-shift-or-after-two-weeks")
 		cur, cerr := k.BridgeValset.Get(ctx)
-		ndAssert(cerr == nil && len(cur.BridgeValidatorSet) == 2 && cur.BridgeValidatorSet[0].Power+cur.BridgeValidatorSet[1].Power == q0+q1, "saved-set-replaced-by-the-current-set")
+		sum := uint64(0)
+		for _, v := range cur.BridgeValidatorSet {
+			sum += v.Power
+		}
+		nNow := 2
+		if member == 2 {
+			nNow = 1
+		}
+		ndAssert(cerr == nil && len(cur.BridgeValidatorSet) == nNow && sum == q0+q1, "saved-set-replaced-by-the-current-set")
 	} else {
 		cur, cerr := k.BridgeValset.Get(ctx)
-		ndAssert(cerr == nil && cur.BridgeValidatorSet[0].Power+cur.BridgeValidatorSet[1].Power == T, "saved-set-kept")
+		sum := uint64(0)
+		for _, v := range cur.BridgeValidatorSet {
+			sum += v.Power
+		}
+		ndAssert(cerr == nil && len(cur.BridgeValidatorSet) == len(saved) && sum == T, "saved-set-kept")
 	}
 }
